@@ -1368,7 +1368,7 @@ pub fn generate(seed: u64, tier: Tier, p: &Profile) -> Scenario {
             let at = g.r.usize_below(ops.len());
             // a body built in the middle of the history is a snapshot: the builder it came from is kept and
             // must build the same bytes again after everything that happens to the live builder later
-            ops.insert(at, match g.r.below(6) { 0..=2 => Op::Observe, 3 | 4 => Op::ForkClone, _ => Op::Build });
+            ops.insert(at, match g.r.below(8) { 0..=2 => Op::Observe, 3 | 4 => Op::ForkClone, 5 => Op::Build, _ => Op::HandOverAgain(1 + g.r.below(63) as u8) });
         }
     }
     let rng = g.rng_plan(seed);
